@@ -4,7 +4,7 @@ use bva_harness::*;
 const MAXD: usize = 330;
 
 fn scale(tier: &str, quick: usize) -> usize {
-    if tier == "thorough" { quick * 20 } else { quick }
+    if tier == "thorough" { quick * 20 } else if tier == "amp" { quick * 6 } else { quick }
 }
 fn line(op: &str, args: &[&str]) -> String {
     let mut s = format!("{} {}", op, DBG);
